@@ -292,6 +292,8 @@ def _undo_after_rollback(ck, P, cfg):
         undo = list(f.calls("termination_on_lp_rollback"))
         g = f.cfg
         w = g.escapes(g.position(c), {u.id for u in undo}, goal="exit")
+        if w and any(g.dominates(u, c) for u in undo):
+            w = None        # the undo only touches the LP's marker and the counter: doing it right before the rollback is the same
         if w:
             ck.violated("C07.2", inst, c.where, "a path leaves %s after do_rollback without termination_on_lp_rollback (%s): an LP whose predicate only held on the undone state stays terminated" % (f.name, witness_text(f, w)), cfg)
             continue
@@ -302,7 +304,7 @@ def _undo_after_rollback(ck, P, cfg):
                 ck.violated("C07.2", inst + ":time", u.where, "the undo is given %s, not the timestamp of the message that caused the rollback" % X.show(a), cfg)
                 ok = False
         if ok:
-            ck.holds("C07.2", inst, c.where, "do_rollback is followed on every path by termination_on_lp_rollback(lp, %s)" % ", ".join(X.show(X.callee_args(u)[1]) for u in undo), cfg)
+            ck.holds("C07.2", inst, c.where, "do_rollback is accompanied on every path by termination_on_lp_rollback(lp, %s)" % ", ".join(X.show(X.callee_args(u)[1]) for u in undo), cfg)
     ck.expect("C07.2", len(sites), 3, "call sites of do_rollback")
 
 
